@@ -5,7 +5,7 @@ import ast
 from typing import Dict, List, Optional, Set, Tuple
 
 from ..cfg import CFG, walk_node
-from ..model import AnalysisError, FuncInfo, Repo, call_np, dotted, expand_src, method_call, src, walk_no_nested
+from ..model import AnalysisError, FuncInfo, Repo, call_np, dotted, expand_src, method_call, single_defs, src, walk_no_nested
 from ..report import Ob, bad, note, ok, skip
 from ..symalg import Folder, Mat, Poly, Unfoldable
 from . import rule
@@ -324,6 +324,8 @@ def outcome_space(repo: Repo) -> List[Ob]:
             if a is None:
                 obs.append(skip("OUTCOME-SPACE", fi, key, props, c, "no sample-space argument"))
                 continue
+            if isinstance(a, ast.Name):
+                a = single_defs(fi.node).get(a.id, a)       # a named sample space: read its (only) definition
             t = src(a).replace(" ", "")
             good = None
             if call_np(a) == "arange" and len(a.args) == 1 and not a.keywords:
@@ -460,6 +462,38 @@ def dim_norm(repo: Repo) -> List[Ob]:
         good = bool(norm_nodes) and cfg.must_pass_through(u, norm_nodes)
         (obs.append(ok("DIM-NORM", fi, f"estimator-input#{i}", P, u.ast, "the estimator receives a normalised state on every path")) if good else
          obs.append(bad("DIM-NORM", fi, f"estimator-input#{i}", P, u.ast, "the dimension estimator can receive an un-normalised traced-out state: its threshold test stops too early (or never) and the automatic cutoff is wrong")))
+    # the normaliser agrees with the representation: the traced-out state is a ket (d,1) or a density matrix (d,d); the estimator
+    # accumulates |amplitude|^2 resp. diagonal entries up to the threshold, so a ket must have norm 1 and a matrix trace 1
+    def under_shape_test(stmt: ast.AST) -> bool:
+        for i_ in walk_no_nested(fi.node):
+            if isinstance(i_, ast.If) and any(k in src(i_.test) for k in (".shape", ".ndim", "isinstance")) and any(stmt is y for b in i_.body + i_.orelse for y in [b] + list(ast.walk(b))):
+                return True
+            if isinstance(i_, ast.IfExp) and any(k in src(i_.test) for k in (".shape", ".ndim")) and any(stmt is y for y in ast.walk(i_)):
+                return True
+        return False
+    kinds = []
+    for n in sorted(norm_nodes, key=lambda x: x.lineno):
+        a = n.ast
+        for x in ast.walk(a.value):
+            den = x.right if (isinstance(x, ast.BinOp) and isinstance(x.op, ast.Div)) else None
+            if den is None and isinstance(a, ast.AugAssign) and x is a.value:
+                den = a.value
+            if den is None:
+                continue
+            if is_trace(den) is not None:
+                kinds.append(("trace", x if isinstance(x, ast.BinOp) else a, n))
+            elif is_norm2(den) is not None:
+                kinds.append(("norm", x if isinstance(x, ast.BinOp) else a, n))
+    has_trace = any(k == "trace" for k, _, _ in kinds)
+    bare_norm = [(e, n) for k, e, n in kinds if k == "norm" and not under_shape_test(e) and not under_shape_test(n.ast)]
+    if kinds:
+        if not has_trace or bare_norm:
+            at = (bare_norm[0][1].ast if bare_norm else kinds[0][2].ast)
+            obs.append(bad("DIM-NORM", fi, "normaliser-by-representation", P, at,
+                           "the traced-out state is divided by its Frobenius norm whatever its representation: for a density matrix (mixed input) the diagonal then sums to Tr/||rho||_F > 1, "
+                           "the cumulative-weight test stops early and the automatic cutoff drops part of the state"))
+        else:
+            obs.append(ok("DIM-NORM", fi, "normaliser-by-representation", P, kinds[0][2].ast, "kets are normalised by their norm, density matrices by their trace"))
     return obs
 
 
@@ -511,3 +545,193 @@ def detach(repo: Repo) -> List[Ob]:
     if n < 4:
         raise AnalysisError(f"DETACH: {n} detachment sites (floor 4)")
     return obs
+
+
+@rule("BOOK-extract")
+def book_extract(repo: Repo) -> List[Ob]:
+    """sibling agreement of the hand-over method: X.extract(index) records the index it is given and gives up the
+    subsystem's own copy of the state (otherwise the state lives both in the subsystem and in the product space)"""
+    obs: List[Ob] = []
+    P = ("C13", "C02")
+    n = 0
+    for cname in ("Fock", "Polarization", "CustomState"):
+        fi = repo.func(f"{cname}.extract")
+        n += 1
+        params = [p for p in fi.params if p != "self"]
+        cfg = CFG(fi.node)
+        idx = [nd for nd in cfg.nodes if nd.kind == "stmt" and isinstance(nd.ast, ast.Assign) and any(src(t) in ("self.index", "self._index") for t in nd.ast.targets)]
+        st = [nd for nd in cfg.nodes if nd.kind == "stmt" and isinstance(nd.ast, ast.Assign) and any(src(t) in ("self.state", "self._state") for t in nd.ast.targets)]
+        good_idx = bool(idx) and bool(params) and all(src(nd.ast.value) == params[0] for nd in idx) and not cfg.reachable([cfg.entry], blocked=set(idx)) & {cfg.exit}
+        good_st = bool(st) and all(isinstance(nd.ast.value, ast.Constant) and nd.ast.value.value is None for nd in st) and not cfg.reachable([cfg.entry], blocked=set(st)) & {cfg.exit}
+        (obs.append(ok("BOOK-extract", fi, "records-index", P, fi.node, "the index handed over is recorded on every path")) if good_idx else
+         obs.append(bad("BOOK-extract", fi, "records-index", P, fi.node, f"{cname}.extract does not store its argument in self.index on every path: the member keeps routing to its old place")))
+        (obs.append(ok("BOOK-extract", fi, "releases-state", P, fi.node, "the subsystem's own state is released on every path")) if good_st else
+         obs.append(bad("BOOK-extract", fi, "releases-state", P, fi.node, f"{cname}.extract does not reset self.state to None on every path: the state now lives in the subsystem and in the product space")))
+    return obs
+
+
+@rule("EST-TAIL")
+def est_tail(repo: Repo) -> List[Ob]:
+    """the dimension estimator decides from phase-independent quantities: the tail guard compares a *modulus* of the last
+    amplitude / diagonal entry with its bound, the accumulated weight is |amplitude|^2 (ket) or the diagonal entry (density
+    matrix), and the returned cutoff contains the level at which the threshold was reached (`i + k`, k >= 1).
+    Necessary for 'every displacement/squeezing parameter of any phase': a signed or complex comparison passes for some phases only.
+    Read over `_compute_dimensions` and the private methods it calls (as written), keyed by what is computed, not where."""
+    from ..domains import is_abs, is_abs2
+    from ..model import single_defs
+    obs: List[Ob] = []
+    P = ("C10",)
+    fi = repo.func("FockDimensions._compute_dimensions")
+    cls = repo.cls("FockDimensions")
+    closure, todo = [], [fi]
+    while todo:
+        f = todo.pop()
+        if f in closure:
+            continue
+        closure.append(f)
+        for x in ast.walk(getattr(f, "orig", f.node)):
+            mc = method_call(x)
+            if mc and src(mc[0]) == "self" and mc[1].startswith("_") and mc[1] in cls.methods and mc[1] not in ("_increase_dimensions", "_initial_estimate", "_compute_dimensions"):
+                todo.append(cls.methods[mc[1]])
+
+    def n_matmul(v: ast.AST) -> int:
+        k = 0
+        for x in ast.walk(v):
+            if isinstance(x, ast.BinOp) and isinstance(x.op, ast.MatMult):
+                k += 1
+            if isinstance(x, ast.Call) and call_np(x) in ("dot", "matmul"):
+                k += 1
+            if isinstance(x, ast.Call) and call_np(x) == "einsum":
+                k += max(len(x.args) - 2, 0)
+        return k
+
+    found = {"Vector": 0, "Matrix": 0}
+    wcount: Dict[str, int] = {}
+    n_ret = 0
+    for f in closure:
+        fn = getattr(f, "orig", f.node)
+        defs = single_defs(fn)
+        parents = {id(c): p for p in ast.walk(fn) for c in ast.iter_child_nodes(p)}
+        results = []
+        for blk_owner in [fn] + [x for x in walk_no_nested(fn) if isinstance(x, (ast.If, ast.For, ast.While, ast.With, ast.Try))]:
+            for fld in ("body", "orelse"):
+                blk = getattr(blk_owner, fld, None)
+                if not isinstance(blk, list):
+                    continue
+                for a in blk:
+                    if isinstance(a, ast.Assign) and len(a.targets) == 1 and isinstance(a.targets[0], ast.Name) and n_matmul(a.value) >= 1 and "state" in src(a.value):
+                        region = {id(y) for st in blk[blk.index(a):] for y in ast.walk(st)}
+                        results.append((a.targets[0].id, "Matrix" if n_matmul(a.value) >= 2 else "Vector", region))
+        for rname, kind, region in results:
+            found[kind] += 1
+
+            def is_tail(sub: ast.Subscript) -> bool:
+                return src(sub.value) == rname and "-1" in src(sub.slice)
+
+            def outer_sub(x: ast.AST) -> ast.AST:
+                while isinstance(parents.get(id(x)), ast.Subscript) and parents[id(x)].value is x:
+                    x = parents[id(x)]
+                return x
+
+            def wrapped(x: ast.AST, pred) -> bool:
+                """some enclosing expression of x (through once-bound names that carry it) satisfies pred"""
+                seen = 0
+                while x is not None and seen < 40:
+                    seen += 1
+                    if isinstance(x, ast.expr) and pred(x):
+                        return True
+                    p_ = parents.get(id(x))
+                    if isinstance(p_, ast.Assign) and len(p_.targets) == 1 and isinstance(p_.targets[0], ast.Name) and defs.get(p_.targets[0].id) is p_.value:
+                        # follow the single use sites of the name
+                        uses = [u for u in ast.walk(fn) if isinstance(u, ast.Name) and u.id == p_.targets[0].id and isinstance(u.ctx, ast.Load)]
+                        return bool(uses) and all(wrapped(u, pred) for u in uses)
+                    if isinstance(p_, (ast.stmt, ast.comprehension)) or p_ is None:
+                        return False
+                    x = p_
+                return False
+
+            # (a) tail guard
+            tails = [outer_sub(x) for x in ast.walk(fn) if id(x) in region and isinstance(x, ast.Subscript) and is_tail(x)]
+            guarded = False
+            for t in tails:
+                # the comparison the tail value ends up in
+                modulus = wrapped(t, lambda e: is_abs(e) is not None or is_abs2(e) is not None or (kind == "Matrix" and isinstance(e, ast.Attribute) and e.attr == "real"))
+                cmp_reach = wrapped(t, lambda e: isinstance(e, ast.Compare))
+                if not cmp_reach:
+                    continue
+                guarded = True
+                (obs.append(ok("EST-TAIL", fi, f"tail-guard@{kind}", P, t, "the tail guard compares a modulus")) if modulus else
+                 obs.append(bad("EST-TAIL", fi, f"tail-guard@{kind}", P, t,
+                                f"the tail guard compares `{src(t)}` itself with its bound: a negative or complex last amplitude passes the guard whatever its size, so the estimate depends on the phase of the parameter")))
+            if not guarded:
+                obs.append(bad("EST-TAIL", fi, f"tail-guard@{kind}", P, fn, "the estimate is accepted without looking at the last level of the trial space: weight pushed against the cutoff goes unnoticed"))
+            # (b) accumulated weights: every other read of an entry of the result
+            reads = [outer_sub(x) for x in ast.walk(fn) if id(x) in region and isinstance(x, ast.Subscript) and src(x.value) == rname and not is_tail(x)]
+            for r in reads:
+                wcount[kind] = wcount.get(kind, 0) + 1
+                pred = (lambda e: is_abs2(e) is not None) if kind == "Vector" else (lambda e: is_abs(e) is not None or (isinstance(e, ast.Attribute) and e.attr == "real") or call_np(e) == "real")
+                what = "|amplitude|^2" if kind == "Vector" else "the (modulus / real part of the) diagonal entry"
+                (obs.append(ok("EST-TAIL", fi, f"weight@{kind}#{wcount[kind]}", P, r, f"accumulated weight is {what}")) if wrapped(r, pred) else
+                 obs.append(bad("EST-TAIL", fi, f"weight@{kind}#{wcount[kind]}", P, r, f"the accumulated weight read from `{src(r)}` is not {what}")))
+        # (c) accepting returns inside the accumulation loops
+        for l in [x for x in walk_no_nested(fn) if isinstance(x, ast.For)]:
+            for r in [y for y in walk_no_nested(l) if isinstance(y, ast.Return) and y.value is not None]:
+                v = r.value
+                if (isinstance(v, ast.UnaryOp) and isinstance(v.op, ast.USub)) or (isinstance(v, ast.Constant) and isinstance(v.value, int) and v.value < 0):
+                    continue
+                n_ret += 1
+                good = isinstance(v, ast.BinOp) and isinstance(v.op, ast.Add) and isinstance(v.right, ast.Constant) and isinstance(v.right.value, int) and v.right.value >= 1
+                (obs.append(ok("EST-TAIL", fi, f"cutoff-covers#{n_ret}", P, r, "cutoff = level reached + k, k >= 1")) if good else
+                 obs.append(bad("EST-TAIL", fi, f"cutoff-covers#{n_ret}", P, r, f"`return {src(v)}`: the cutoff does not contain the level at which the threshold was reached")))
+    if not found["Vector"] or not found["Matrix"]:
+        raise AnalysisError(f"EST-TAIL: trial results found {found} (expected the ket and the density-matrix application)")
+    if not n_ret:
+        raise AnalysisError("EST-TAIL: no accepting return in the accumulation loops")
+    if not wcount.get("Vector") or not wcount.get("Matrix"):
+        raise AnalysisError(f"EST-TAIL: accumulated weights found {wcount}")
+    return obs
+
+
+@rule("LABEL-EXACT")
+def label_exact(repo: Repo) -> List[Ob]:
+    """Vector -> Label contraction keeps the state only if the *whole* ket is a basis vector.  Testing one amplitude against 1
+    is sound with exact equality only (1 - |a_k| is second order in the other amplitudes: a tolerance t on a_k lets amplitudes up
+    to sqrt(2t) be thrown away); a tolerant comparison has to be against the full basis vector."""
+    obs: List[Ob] = []
+    P = ("C07", "C08")
+    n = 0
+    for q in ("Fock.contract", "BaseState.contract", "CustomState.contract", "Polarization.contract"):
+        fi = repo.func(q)
+        lab = [a for a in walk_no_nested(fi.node) if isinstance(a, ast.Assign) and any(isinstance(t, ast.Attribute) and t.attr == "expansion_level" for t in a.targets)
+               and src(a.value).endswith("ExpansionLevel.Label")]
+        if not lab:
+            raise AnalysisError(f"LABEL-EXACT: {q} never assigns ExpansionLevel.Label")
+        n += 1
+        bad_site = None
+        sites = 0
+        for c in walk_no_nested(fi.node):
+            if isinstance(c, ast.Call) and call_np(c) in ("isclose", "allclose") and len(c.args) >= 2 and any("state" in src(a) for a in c.args[:2]):
+                other = [a for a in c.args[:2] if "state" not in src(a)]
+                if not other:
+                    continue
+                sites += 1
+                o = other[0]
+                scalar = isinstance(o, ast.Constant) or (isinstance(o, ast.UnaryOp) and isinstance(o.operand, ast.Constant)) \
+                    or (isinstance(o, ast.Call) and isinstance(o.func, ast.Name) and o.func.id in ("float", "int", "complex"))
+                # purity tests `isclose(purity, 1)` are not about self.state: only calls whose operand is the stored ket count
+                if scalar and any(isinstance(x, ast.Attribute) and x.attr == "state" and src(x.value) == "self" for a in c.args[:2] for x in ast.walk(a)):
+                    bad_site = c
+            if isinstance(c, ast.Compare) and len(c.ops) == 1 and isinstance(c.ops[0], (ast.Lt, ast.LtE)) and any(
+                    isinstance(x, ast.Attribute) and x.attr == "state" and src(x.value) == "self" for x in ast.walk(c.left)) and "1" in src(c.left) and is_abs_like(c.left):
+                sites += 1
+                bad_site = c
+        (obs.append(bad("LABEL-EXACT", fi, "label-criterion", P, bad_site,
+                        f"`{src(bad_site)[:60]}` accepts a ket as a basis state when one amplitude is *close to* 1: the other amplitudes (up to the square root of the tolerance) are discarded, "
+                        "so a weakly excited state is replaced by a label and results depend on the contraction setting")) if bad_site is not None else
+         obs.append(ok("LABEL-EXACT", fi, "label-criterion", P, lab[0], "a ket becomes a label only through an exact entry test or a comparison with the full basis vector")))
+    return obs
+
+
+def is_abs_like(e: ast.AST) -> bool:
+    from ..domains import is_abs
+    return any(is_abs(x) is not None for x in [e] + list(ast.walk(e)))
